@@ -362,6 +362,19 @@ UNITS = {
             dict(I(RAYON_RAW, r'^impl < T : Send > UnindexedProducer for ParDrainProducer < T >$', 'split', impl='ParDrainProducer<T>', key='ParDrainProducer::split'), value_type=['T']),
         ],
     ),
+    # C10: retain
+    'retain': dict(
+        widths=[16, 8],
+        prelude='preludes/ctrl.rs',
+        prelude_extra=['preludes/rehash.rs', 'preludes/clone.rs', 'preludes/retain.rs'],
+        specs=['contracts/ctrl.vspec', 'contracts/retain.vspec'],
+        lemmas=['lemmas/ctrl_lemmas.rs', 'lemmas/mask_lemmas.rs', 'lemmas/probe_lemmas.rs', 'lemmas/loop_lemmas.rs', 'lemmas/clone_lemmas.rs', 'lemmas/retain_lemmas.rs'],
+        extra='retain_rules',
+        items=[
+            I(MAP, r'^impl < K , V , S , A : Allocator > HashMap < K , V , S , A >$', 'retain', impl='HashMap<K, V>', key='HashMap::retain'),
+            I('src/table.rs', r'^impl < T , A > HashTable < T , A > where A : Allocator ,$', 'retain', impl='HashTable<T>', key='HashTable::retain'),
+        ],
+    ),
 }
 
 
@@ -1495,6 +1508,50 @@ def pardrain_rules(toks, i, out, hit):
         hit('R21_bucket_drop_recorded')
         return i + 5
     return iter_rules(toks, i, out, hit)
+
+
+def retain_rules(toks, i, out, hit):
+    """unit `retain` (on top of clone_rules / ctrl_rules):
+       R41  the predicate applied to the element of the bucket just yielded:
+            `let &mut (ref key, ref mut value) = item.as_mut(); if !f(key, value) {` -> `if !f.call_on(&item) {`
+            `if !f(item.as_mut()) {` -> `if !f.call_on(&item) {`;  `mut f: F` / `mut f: impl FnMut(&mut T) -> bool` -> `f: &mut F`
+            with `F: FnMut(&K, &mut V) -> bool` -> `F: RetainFn<(K, V)>` (resp. a type parameter `F: RetainFn<T>`)"""
+    t = toks[i]
+    n = len(toks)
+    T = extract.T
+
+    def seq(k, *texts):
+        return k + len(texts) <= n and all(toks[k + a].text == x for a, x in enumerate(texts))
+    if t.text == 'mut' and seq(i + 1, 'f', ':', 'F'):
+        out.extend([T('f', t.gap), T(':', ''), T('&'), T('mut', ''), T('F')])
+        hit('R41_predicate_by_mut_ref')
+        return i + 4
+    if t.text == 'mut' and seq(i + 1, 'f', ':', 'impl', 'FnMut', '(', '&', 'mut', 'T', ')', '-', '>', 'bool'):
+        out.extend([T('f', t.gap), T(':', ''), T('&'), T('mut', ''), T('impl'), T('RetainFn'), T('<', ''), T('T', ''), T('>', '')])
+        hit('R41_predicate_by_mut_ref')
+        return i + 13
+    if t.text == 'f' and seq(i + 1, '(', 'item', '.', 'as_mut', '(', ')', ')') and not (out and out[-1].text in ('.', 'fn')):
+        out.extend([T('f', t.gap), T('.', ''), T('call_on', ''), T('(', ''), T('&', ''), T('item', ''), T(')', '')])
+        hit('R41_predicate_call_on_bucket')
+        return i + 8
+    if t.text == 'FnMut' and seq(i + 1, '(', '&', 'K', ',', '&', 'mut', 'V', ')', '-', '>', 'bool'):
+        out.extend([T('RetainFn', t.gap), T('<', ''), T('(', ''), T('K', ''), T(',', ''), T('V'), T(')', ''), T('>', '')])
+        hit('R41_predicate_bound_to_RetainFn')
+        return i + 12
+    if t.text == 'let' and seq(i + 1, '&', 'mut', '(', 'ref', 'key', ',', 'ref', 'mut', 'value', ')', '=', 'item', '.', 'as_mut', '(', ')', ';'):
+        hit('R41_element_destructuring_dropped')
+        return i + 18
+    if t.text == 'f' and seq(i + 1, '(', 'key', ',', 'value', ')') and not (out and out[-1].text in ('.', 'fn')):
+        out.extend([T('f', t.gap), T('.', ''), T('call_on', ''), T('(', ''), T('&', ''), T('item', ''), T(')', '')])
+        hit('R41_predicate_call_on_bucket')
+        return i + 6
+    if t.kind == 'id' and t.text == 'for':
+        _FLAGS['top_rules'] = retain_rules
+        try:
+            return ctrl_rules(toks, i, out, hit)
+        finally:
+            _FLAGS['top_rules'] = None
+    return ctrl_rules(toks, i, out, hit)
 
 
 def generate(unit_name, width, outdir):
